@@ -451,6 +451,37 @@ def run(st, tier, seed):
                                            "sig": "C08:exhaustive-unbalanced", "cmd": "extended2dotParen"})
             if l <= 5:
                 reqs.append({"op": "ext2dp", "s": s}); impls.append(r)
+    # unbalanced descriptions behind a helix of well over a hundred base pairs (where the recursive grammar that checks balance meets
+    # the interpreter's recursion limit: a BALANCED one may be refused there - a resource limit, not judged - but an unbalanced one must
+    # never come back as a structure), plain and run-length spellings
+    for k in range(8 if tier == "quick" else 120):
+        n_, l_ = rng.randint(110, 260), rng.randint(3, 6)
+        d_ = rng.randint(1, 4)
+        kind_ = k % 4
+        if kind_ == 0:
+            parts = [(n_, "("), (l_, "."), (n_ - d_, ")"), (d_, ".")]                       # closers missing
+        elif kind_ == 1:
+            parts = [(n_, "("), (l_, "."), (n_, ")"), (d_, ")"), (d_, "(")]                # a closing run before its opening run
+        elif kind_ == 2:
+            parts = [(n_, "("), (l_, "."), (n_ - d_, ")"), (d_ + 2, "("), (l_, "."), (2, ")"), (d_ + d_, ")")][:6] + [(d_, ")")]
+            parts = [(n_, "("), (l_, "."), (n_ + d_, ")"), (d_, "("), (l_, "."), (0, ")")]  # one helix closes more than it opened, a later one opens
+        else:
+            parts = [(d_, "."), (n_, "("), (l_, "."), (n_, ")"), (1, "("), (l_, ".")]       # an opener never closed
+        plain = "".join(c_ * m_ for m_, c_ in parts)
+        depth, okb = 0, True
+        for c_ in plain:
+            depth += (c_ == "(") - (c_ == ")")
+            okb = okb and depth >= 0
+        if okb and depth == 0:
+            continue
+        for spelled, how in ((plain, "plain"), (" ".join("%d%s" % (m_, c_) for m_, c_ in parts if m_), "run-length")):
+            r = call(extended2dotParen, spelled)
+            res.evaluations += 1
+            res.count("unbalanced-behind-a-long-helix:" + how)
+            if "ok" in r:
+                res.violations.append({"what": "unbalanced string accepted", "input": {"s": spelled if len(spelled) < 200 else "%s (%d characters)" % (" ".join("%d%s" % (m_, c_) for m_, c_ in parts if m_), len(spelled))},
+                                       "observed": {"ok": (r["ok"][:60] + "...") if isinstance(r["ok"], str) else r["ok"]},
+                                       "sig": "C08:long-unbalanced", "cmd": "extended2dotParen"})
     res.extra["exhaustive_strings_up_to_length"] = L
     res.extra["balanced_strings_enumerated"] = nb
     res.count("exhaustive-balanced", nb)
